@@ -43,7 +43,8 @@ class Preemptor:
             sys.settrace(old)
 
     def _global(self, frame, event, arg):
-        if frame.f_code.co_filename.startswith(self.prefixes):
+        # module bodies are never pre-empted: with real threads the import lock serialises them
+        if frame.f_code.co_filename.startswith(self.prefixes) and frame.f_code.co_name != "<module>":
             return self._local
         return None
 
